@@ -7,7 +7,8 @@
     the same function).
   * `BdfCtl.limits_le_hmax` (Proofs/BdfLemmas.lean) : the step BDF's limiter hands to a pass satisfies |h| ≤ h_max, or it
     was stretched to land on xend and then |h| ≤ stretch·h_max (ordered field; the control model X-bdf runs beside Rust).
-  * `startMeter_first_step` : a given first_step h0 makes the first trial step |h0|·posneg.
+  * `startMeter_first_step` : a given first_step h0 makes the first trial step min(|h0|, hmax)·posneg; `startMeter_given_le_hmax`:
+    it is never longer than max_step, and it is |h0| itself when |h0| ≤ max_step.
   * `startMeter_auto_le_hmax` (via `HinitBound.hinit_le_hmax`, the translated `hinit`) : an automatically chosen first
     step is at most min(h_max, |xend − x0|), for every right-hand side (ordered field; `powf ≥ 0` at base ≥ 0 assumed).
   * `RadauCtl.c11_radau_steps` (Proofs/RadauStep.lean: `pass_rinv`, `run_rinv`, `start_rinv`) : every pass of every Radau
@@ -34,11 +35,11 @@ theorem hIter_budget_irrelevant {σ : Type} (P : HParams α n) (N : Nat) (Kn : H
   rw [hg]
   rfl
 
-/-- with `first_step = h0` the first trial step is `|h0|·posneg` and no `hinit` probe is made -/
-theorem startMeter_first_step (f : Rhs α n) (x0 : α) (y0 : Vec α n) (posneg h0 : α)
+/-- with `first_step = h0` the first trial step is `min(|h0|, hmax)·posneg` and no `hinit` probe is made -/
+theorem startMeter_first_step (f : Rhs α n) (x0 : α) (y0 : Vec α n) (posneg hcap h0 : α)
     (hinit : Rhs α n → Vec α n → α × Array (α × Vec α n)) :
-    (startMeter f x0 y0 posneg (some h0) hinit).1 = Num.abs h0 * posneg
-      ∧ (startMeter f x0 y0 posneg (some h0) hinit).2.2.ncalls = 1 := by
+    (startMeter f x0 y0 posneg hcap (some h0) hinit).1 = Num.fmin (Num.abs h0) hcap * posneg
+      ∧ (startMeter f x0 y0 posneg hcap (some h0) hinit).2.2.ncalls = 1 := by
   unfold startMeter; exact ⟨rfl, rfl⟩
 end Ctl
 
@@ -50,11 +51,24 @@ variable {K : Type} [Field K] [LinearOrder K] [IsStrictOrderedRing K] [SqrtPow K
     `hinit` returns, and that is at most the `hmax.min(|xend − x0|)` it was given, for every right-hand side. -/
 theorem startMeter_auto_le_hmax (hpow : ∀ a b : K, 0 ≤ a → 0 ≤ SqrtPow.pow a b) (f : Rhs K n) (x0 : K) (y0 : Vec K n)
     (atol rtol : Vec K n) (posneg hmax span : K) (iord : Nat) (hm : 0 ≤ hmax) (hs : 0 ≤ span) :
-    |(startMeter f x0 y0 posneg none (hinitCall atol rtol x0 y0 posneg (Num.fmin hmax span) iord)).1| ≤ hmax
-    ∧ |(startMeter f x0 y0 posneg none (hinitCall atol rtol x0 y0 posneg (Num.fmin hmax span) iord)).1| ≤ span := by
+    |(startMeter f x0 y0 posneg hmax none (hinitCall atol rtol x0 y0 posneg (Num.fmin hmax span) iord)).1| ≤ hmax
+    ∧ |(startMeter f x0 y0 posneg hmax none (hinitCall atol rtol x0 y0 posneg (Num.fmin hmax span) iord)).1| ≤ span := by
   have h := HinitBound.hinit_le_hmax hpow (fun j => f (1 + j)) atol rtol y0 (f 0 x0 y0) (Num.fmin hmax span) posneg x0 iord
   rw [num_fmin, abs_of_nonneg (le_min hm hs)] at h
   exact ⟨le_trans h (min_le_left _ _), le_trans h (min_le_right _ _)⟩
+
+/-- **C11, given first step (DOPRI5 / DOP853 / RK23).**  The first trial step is never longer than `max_step`, and it is the
+    given `first_step` whenever that is not larger than `max_step` (`posneg = ±1`). -/
+theorem startMeter_given_le_hmax (f : Rhs K n) (x0 : K) (y0 : Vec K n) (posneg hmax h0 : K)
+    (hinit : Rhs K n → Vec K n → K × Array (K × Vec K n)) (hm : 0 ≤ hmax) (hp : |posneg| = 1) :
+    |(startMeter f x0 y0 posneg hmax (some h0) hinit).1| ≤ hmax
+    ∧ (|h0| ≤ hmax → (startMeter f x0 y0 posneg hmax (some h0) hinit).1 = |h0| * posneg) := by
+  unfold startMeter
+  simp only [num_fmin, num_abs]
+  constructor
+  · rw [abs_mul, hp, mul_one, abs_of_nonneg (le_min (abs_nonneg _) hm)]
+    exact min_le_right _ _
+  · intro h; rw [min_eq_left h]
 end
 end Ctl
 
